@@ -59,7 +59,7 @@ def gen_tree(rng):
 NAMES = [b'f1', b'f2', b'fs', b'fg', b'd1', b'd2', b'd3', b'g', b'dd', b'hl', b'l1', b'l2', b'ff', b'n1', b'n2', b'n3', b'n4', b'x' * 255, b'y' * 256, b'', b'.', b'..', b'a/b']
 XNAMES = [b'user.a', b'user.b', b'user.c', b'user.', b'bad', b'', b'user.' + b'z' * 251]
 
-def gen_history(rng, n_ops, k=0, wb=False):
+def gen_history(rng, n_ops, k=0, wb=False, late_create=False):
     ops = []; ni = 1; nh = 0
     hflags = []       # the flags each handle slot was opened with
     def nm(): return rng.choice(NAMES[:17]) if rng.random() < 0.9 else rng.choice(NAMES)
@@ -68,24 +68,27 @@ def gen_history(rng, n_ops, k=0, wb=False):
     def who(): return rng.choice(UIDS), rng.choice(GIDS)
     for n in [b'f1', b'f2', b'fs', b'fg', b'd1', b'd2', b'd3', b'l1', b'ff']:
         ops.append({'op': 'lookup', 'p': 0, 'name': n}); ni += 1
-    # CREATE on names that already exist (the whole class, rotated deterministically over the histories so that every
-    # (target kind, flag set) cell is exercised in several configurations): regular files with content (root-owned,
-    # user-owned, suid), a file in a subdirectory, a symlink, a directory, a FIFO; with/without O_TRUNC, O_APPEND,
-    # O_EXCL; each followed by getattr, a write through the returned handle, and a fresh open + read
-    targets = [(0, b'f1'), (0, b'f2'), (0, b'fs'), (5, b'g'), (0, b'l1'), (0, b'd1'), (0, b'ff')]
-    flagsets = [O_RDWR, O_RDWR | O_TRUNC, O_WRONLY | O_TRUNC, O_WRONLY | O_APPEND, O_RDWR | O_EXCL, O_RDWR | O_TRUNC | O_EXCL]
-    for j in range(6):
-        cell = (k * 6 + j) % (len(targets) * len(flagsets))
-        (par, name), fl = targets[cell % len(targets)], flagsets[cell // len(targets)]
-        u, g = (0, 0) if j % 2 == 0 else (1000, 1000)
-        fl |= EXTRA_OPEN_BITS[(k + j) % len(EXTRA_OPEN_BITS)]
-        ops.append({'op': 'create', 'p': par, 'name': name, 'mode': 0o644, 'umask': 0, 'flags': fl, 'fuse_flags': (k + j) % 2, 'uid': u, 'gid': g})
-        ci = ni; ch = nh; ni += 1; nh += 1; hflags.append(fl)
-        ops.append({'op': 'getattr', 'i': ci, 'h': None})
-        ops.append({'op': 'write', 'i': ci, 'h': ch, 'off': 1, 'data': b'Z', 'flags': fl, 'fuse_flags': 0})
-        ops.append({'op': 'open', 'i': ci, 'flags': O_NONBLOCK, 'fuse_flags': 0}); nh += 1; hflags.append(O_NONBLOCK)
-        ops.append({'op': 'read', 'i': ci, 'h': nh - 1, 'size': 64, 'off': 0, 'flags': O_NONBLOCK})
-        ops.append({'op': 'getattr', 'i': ci, 'h': None})
+    def create_existing_block():
+        nonlocal ni, nh
+        # CREATE on names that already exist (the whole class, rotated deterministically over the histories so that every
+        # (target kind, flag set) cell is exercised in several configurations): regular files with content (root-owned,
+        # user-owned, suid), a file in a subdirectory, a symlink, a directory, a FIFO; with/without O_TRUNC, O_APPEND,
+        # O_EXCL; each followed by getattr, a write through the returned handle, and a fresh open + read
+        targets = [(0, b'f1'), (0, b'f2'), (0, b'fs'), (5, b'g'), (0, b'l1'), (0, b'd1'), (0, b'ff')]
+        flagsets = [O_RDWR, O_RDWR | O_TRUNC, O_WRONLY | O_TRUNC, O_WRONLY | O_APPEND, O_RDWR | O_EXCL, O_RDWR | O_TRUNC | O_EXCL]
+        for j in range(6):
+            cell = (k * 6 + j + k // 7) % (len(targets) * len(flagsets))      # k // 7: the 7 configurations x 42 cells must not stay in phase
+            (par, name), fl = targets[cell % len(targets)], flagsets[cell // len(targets)]
+            u, g = (0, 0) if j % 2 == 0 else (1000, 1000)
+            fl |= EXTRA_OPEN_BITS[(k + j) % len(EXTRA_OPEN_BITS)]
+            ops.append({'op': 'create', 'p': par, 'name': name, 'mode': 0o644, 'umask': 0, 'flags': fl, 'fuse_flags': (k + j) % 2, 'uid': u, 'gid': g})
+            ci = ni; ch = nh; ni += 1; nh += 1; hflags.append(fl)
+            ops.append({'op': 'getattr', 'i': ci, 'h': None})
+            ops.append({'op': 'write', 'i': ci, 'h': ch, 'off': 1, 'data': b'Z', 'flags': fl, 'fuse_flags': 0})
+            ops.append({'op': 'open', 'i': ci, 'flags': O_NONBLOCK, 'fuse_flags': 0}); nh += 1; hflags.append(O_NONBLOCK)
+            ops.append({'op': 'read', 'i': ci, 'h': nh - 1, 'size': 64, 'off': 0, 'flags': O_NONBLOCK})
+            ops.append({'op': 'getattr', 'i': ci, 'h': None})
+    if not late_create: create_existing_block()
     # SETATTR over the subsets of the validity bits {ATIME, MTIME, ATIME_NOW, MTIME_NOW, SIZE, MODE, with/without handle}
     # (enumerated deterministically over the histories: all 16 time-bit combinations in every history) x random
     # {UID, GID, KILL_SUIDGID, CTIME}; explicit times are distinctive constants far from now with non-zero nanoseconds;
@@ -228,6 +231,8 @@ def gen_history(rng, n_ops, k=0, wb=False):
     ops.append({'op': 'open', 'i': 1, 'flags': O_RDWR, 'fuse_flags': 0}); fh = nh; nh += 1; hflags.append(O_RDWR)
     ops.append({'op': 'flush', 'i': 1, 'h': fh}); ops.append({'op': 'flush', 'i': 2, 'h': fh})
     ops.append({'op': 'release', 'i': 2, 'h': fh}); ops.append({'op': 'release', 'i': 1, 'h': fh}); ops.append({'op': 'flush', 'i': 1, 'h': fh})
+    # (with inode_file_handles the create-on-existing block runs into the known finding for non-root callers: run it late)
+    if late_create: create_existing_block()
     # the per-request flags word of READ/WRITE (last, because under writeback it runs into the known finding):
     # {handle opened with O_APPEND, without} x request flags {as opened, O_APPEND toggled, toggled again, plus O_NONBLOCK /
     # O_DIRECT toggles} x offsets {0, middle, EOF, beyond EOF} x two consecutive requests with flipping flags (the recorded
@@ -327,7 +332,7 @@ def run_check(tier, seed):
         for k in range(n_hist):
             hrng = random.Random(rng.getrandbits(64))
             tree, R = gen_tree(hrng)
-            hist.append({'k': k, 'tree': tree, 'R': R, 'ops': gen_history(hrng, 45 if quick else 60, k, bool(effective_cfg(cfgs[k % len(cfgs)]).get('writeback'))), 'cfg': cfgs[k % len(cfgs)],
+            hist.append({'k': k, 'tree': tree, 'R': R, 'ops': gen_history(hrng, 45 if quick else 60, k, bool(effective_cfg(cfgs[k % len(cfgs)]).get('writeback')), bool(cfgs[k % len(cfgs)].get('inode_file_handles'))), 'cfg': cfgs[k % len(cfgs)],
                          'export': os.path.join(base, 'h%d' % k, 'export'), 'shadow': os.path.join(base, 'h%d' % k, 'shadow')})
         runs = {}
         for mode, key in (('pt', 'export'), ('shadow', 'shadow')):
